@@ -1,6 +1,7 @@
 import XdocModel.Stdlib
 import XdocModel.Lemmas.Ellipsis
 import XdocModel.Lemmas.Checker
+import XdocModel.Lemmas.Collapse
 /-! Helper lemmas for C20: the standard split on `...` versus xdoctest's whitespace-absorbing split. -/
 namespace Xdoc
 open Py Re
@@ -590,6 +591,142 @@ theorem stripExceptionDetails_append_nl (m : Str) :
     | cons c m ih =>
       simp only [List.cons_append, List.takeWhile_cons, ih]
   simp [stripExceptionDetails, this]
+
+end Std
+end Xdoc
+
+/-! ### the quote step of `normalize` cannot undo a match
+
+`lead q s` = number of leading `q` characters. A pattern's leading quotes lie in its first piece,
+which is matched literally at the start of the text, so `lead q want ≤ lead q got` for every match.
+Stripping a pair of quotes lowers `lead` by at least one; hence when `got` matches `want`, no
+unquoted `want` can match with `got` as the PATTERN (the swapped second call of `norm_repr`), and
+`normalize` leaves a matching pair alone, with or without NORMALIZE_REPR. -/
+namespace Xdoc
+open Py Re
+open _root_.Xdoc.Std
+
+namespace Std
+
+def lead (q : Char) (s : Str) : Nat := (s.takeWhile (· == q)).length
+
+theorem lead_of_prefix {q : Char} {t s : Str} (ht : ∀ c ∈ t, (c == q) = true) (h : t <+: s) :
+    t.length ≤ lead q s := by
+  obtain ⟨r, rfl⟩ := h
+  unfold lead
+  rw [List.takeWhile_append_of_pos ht]; simp
+
+theorem takeWhile_all {q : Char} (s : Str) : ∀ c ∈ s.takeWhile (· == q), (c == q) = true := by
+  intro c hc
+  exact List.all_eq_true.mp (List.all_takeWhile (l := s) (p := (· == q))) c hc
+
+theorem lead_mono {q : Char} {s t : Str} (h : s <+: t) : lead q s ≤ lead q t :=
+  lead_of_prefix (takeWhile_all s) ((List.takeWhile_prefix _).trans h)
+
+theorem split_head_lead {q : Char} (hq1 : isSpace q = false) (hq2 : q ≠ '.') (p : Str) :
+    ∃ first rest, splitEllipsis p = first :: rest ∧ p.takeWhile (· == q) <+: first := by
+  induction p with
+  | nil => exact ⟨[], [], splitEllipsis_nil, by simp⟩
+  | cons c p ih =>
+    by_cases hc : c = q
+    · subst hc
+      have hs : sepStart (c :: p) = none := by
+        rw [sepStart_cons_nonspace hq1]
+        simp [dots, dropPrefix?, Ne.symm hq2]
+      obtain ⟨first, rest, e, hp⟩ := ih
+      refine ⟨c :: first, rest, ?_, ?_⟩
+      · rw [splitEllipsis_none hs, e]; simp [prependHead]
+      · simp only [List.takeWhile_cons, beq_self_eq_true, ↓reduceIte]
+        exact List.cons_prefix_cons.mpr ⟨rfl, hp⟩
+    · obtain ⟨first, rest, e⟩ := List.exists_cons_of_ne_nil (splitEllipsis_ne_nil (c :: p))
+      refine ⟨first, rest, e, ?_⟩
+      have : (c == q) = false := by simpa using hc
+      simp [this]
+
+theorem ellipsisMatch_lead {q : Char} (hq1 : isSpace q = false) (hq2 : q ≠ '.') (s p : Str)
+    (h : ellipsisMatch s p = true) : lead q p ≤ lead q s := by
+  unfold ellipsisMatch at h
+  split at h
+  · have : p = s := by simpa using h
+    rw [this]; exact Nat.le_refl _
+  · obtain ⟨first, rest, e, hp⟩ := split_head_lead hq1 hq2 p
+    rw [e] at h
+    cases rest with
+    | nil => simp at h
+    | cons r rs =>
+      simp only at h
+      obtain ⟨mid, hs, _⟩ := (ellipsisPieces_iff _ _ _ _).mp h
+      have : p.takeWhile (· == q) <+: s := hp.trans ⟨mid ++ (r :: rs).getLast?.getD [], by rw [hs]; simp⟩
+      exact lead_of_prefix (takeWhile_all p) this
+
+theorem checkMatch_lead {q : Char} (hq1 : isSpace q = false) (hq2 : q ≠ '.') (f : Flags) (g w : Str)
+    (h : checkMatch f g w = true) : lead q w ≤ lead q g := by
+  unfold checkMatch at h
+  simp only [Bool.or_eq_true, beq_iff_eq, Bool.and_eq_true] at h
+  rcases h with h | ⟨_, h⟩
+  · rw [h]; exact Nat.le_refl _
+  · exact ellipsisMatch_lead hq1 hq2 g w h
+
+theorem unquote_lead {q : Char} {a a' : Str} (h : unquote? q a = some a') : lead q a' + 1 ≤ lead q a := by
+  unfold unquote? at h
+  split at h
+  · rename_i hc
+    cases h
+    cases a with
+    | nil => simp at hc
+    | cons c t =>
+      simp only [List.head?_cons, Bool.and_eq_true, beq_iff_eq, Option.some.injEq] at hc
+      obtain ⟨rfl, _⟩ := hc
+      have h1 : lead c (c :: t) = lead c t + 1 := by simp [lead]
+      have h2 : lead c ((c :: t).drop 1).dropLast ≤ lead c t := by
+        simpa using lead_mono (List.dropLast_prefix t)
+      omega
+  · cases h
+
+/-- when `g` matches `w`, no unquoted `w` matches with `g` as the pattern -/
+theorem unquote_no_rev_match {q : Char} (hq1 : isSpace q = false) (hq2 : q ≠ '.') (f : Flags)
+    {g w w0 : Str} (h : checkMatch f g w = true) (hu : unquote? q w = some w0) :
+    checkMatch f w0 g = false := by
+  cases hc : checkMatch f w0 g with
+  | false => rfl
+  | true =>
+    have h1 := checkMatch_lead hq1 hq2 f g w h
+    have h2 := checkMatch_lead hq1 hq2 f w0 g hc
+    have h3 := unquote_lead hu
+    omega
+
+theorem normReprStep_rev_of_match (f : Flags) (g w : Str) (h : checkMatch f g w = true) :
+    normReprStep f w g = w := by
+  have hd : isSpace '"' = false ∧ '"' ≠ '.' := by decide +kernel
+  have hs : isSpace '\'' = false ∧ '\'' ≠ '.' := by decide +kernel
+  unfold normReprStep
+  split
+  · rfl
+  · split
+    · rename_i a' hu
+      rw [unquote_no_rev_match hd.1 hd.2 f h hu]
+      simp only [Bool.false_eq_true, ↓reduceIte]
+      split
+      · rename_i a'' hu2
+        rw [unquote_no_rev_match hs.1 hs.2 f h hu2]; simp
+      · rfl
+    · split
+      · rename_i a'' hu2
+        rw [unquote_no_rev_match hs.1 hs.2 f h hu2]; simp
+      · rfl
+
+/-- ★ a pair whose normal forms match passes the final `_check_match` of `check_output`, whatever
+    NORMALIZE_REPR says: the quote step leaves a matching pair alone -/
+theorem checkMatch_normalize_of_match (f : Flags) (g w : Str)
+    (h : checkMatch f (norm1 f false g) (norm1 f true w) = true) :
+    checkMatch f (normalize f g w).1 (normalize f g w).2 = true := by
+  unfold normalize
+  cases f.normRepr
+  · simpa using h
+  · have e1 : normReprStep f (norm1 f false g) (norm1 f true w) = norm1 f false g := by
+      unfold normReprStep; simp [h]
+    simp only [↓reduceIte, e1, normReprStep_rev_of_match f _ _ h]
+    exact h
 
 end Std
 end Xdoc
